@@ -197,6 +197,8 @@ theorem subOf_restOf_braces (c : Char) {mid a : Str} (Y : Str) (hm : NoBrace mid
 
 end CV.Template
 
+namespace CV.Template
+
 theorem containsStr_name (o : Op) (n : Str) (hall : ∀ x ∈ n, isNameChar x = true) : containsStr o.str n = false := by
   obtain ⟨p0, pt, hp, hp0⟩ := op_head o
   rw [hp, containsStr, indexOf_none_of_no_head]
